@@ -163,6 +163,15 @@ def gen_cols(rng, c, p_none=0.4):
             return {'k': 'slice', 'a': a, 'b': b, 's': None}
         return {'k': 'slice', 'a': None, 'b': None, 's': None}
     if r < p_none + 0.25:
+        if rng.random() < 0.4 and c >= 2:
+            # strided slices: every 2nd / 3rd channel, forwards or backwards, whole range or part
+            a = rng.choice([None, None, 0, rng.randrange(c)])
+            b = rng.choice([None, None, c, rng.randint(1, c)])
+            st = rng.choice([2, 3, -2])
+            if st < 0:
+                a, b = None, None
+            if len(range(*slice(a, b, st).indices(c))) >= 1:
+                return {'k': 'slice', 'a': a, 'b': b, 's': st}
         return {'k': 'slice', 'a': None, 'b': None, 's': -1}
     if r < p_none + 0.4:
         v = list(range(c))
